@@ -359,7 +359,8 @@ def _norm_name(n):
 
 
 READ_OPS = ("count", "get", "contains", "search", "search_unsorted", "len", "getter", "select", "read_storm")
-STORM = [("cmp", "tags", ("i",), "==", str(k)) for k in range(12)] + [("cmp", "fields", ("w",), "==", k) for k in range(12)]
+STORM = ([("cmp", "tags", ("i",), "==", "no-such")] + [("cmp", "tags", ("i",), "==", str(k)) for k in range(1, 12)]
+         + [("cmp", "fields", ("w",), "==", k) for k in range(12)])  # the first one matches nothing: asked again later, it must still
 NONMUTATING = READ_OPS + ("reindex", "reopen", "handle")
 
 # Calls that must raise:
